@@ -16,6 +16,7 @@ struct cfg {
   int peer_mode;    /* 0: ACK every CON, silent on NON; 1: verdicts are choice points incl. RST for NON */
   int bound;
   int max_retx;
+  int same_mid;     /* the bystander session uses the same message ids as the main session */
 };
 
 #define MAXM 8
@@ -343,6 +344,8 @@ run(void *arg) {
     coap_session_set_max_retransmit(sess[s], (uint16_t)C->max_retx);
     if (s == 0)
       coap_session_set_nstart(sess[s], (uint16_t)C->nstart);
+    if (s == 1 && C->same_mid)
+      sess[1]->tx_mid = sess[0]->tx_mid;
   }
   int steps = 0;
   while (steps++ < 600 && step())
@@ -376,8 +379,8 @@ static int ncfgs;
 static void
 add(struct cfg c) {
   cfgs = realloc(cfgs, sizeof *cfgs * (size_t)(ncfgs + 1));
-  snprintf(c.name, sizeof c.name, "c08:nstart=%d,k=%d,t=%s,split=%d,by=%d,pm=%d,mr=%d,B=%d", c.nstart, c.k, c.types, c.split, c.bystander,
-           c.peer_mode, c.max_retx, c.bound);
+  snprintf(c.name, sizeof c.name, "c08:nstart=%d,k=%d,t=%s,split=%d,by=%d,pm=%d,mr=%d,sm=%d,B=%d", c.nstart, c.k, c.types, c.split, c.bystander,
+           c.peer_mode, c.max_retx, c.same_mid, c.bound);
   cfgs[ncfgs++] = c;
 }
 
@@ -409,6 +412,12 @@ main(int argc, char **argv) {
             c.split = 2;
             c.bystander = k == 3;
             add(c);
+            if (c.bystander) {
+              /* both sessions use equal message ids: an ACK / RST must only ever free a slot of its own session */
+              c.same_mid = 1;
+              add(c);
+              c.same_mid = 0;
+            }
           }
         }
       }
@@ -423,7 +432,7 @@ main(int argc, char **argv) {
         add(c);
       }
   vx_ev_rule("executions of a real libcoap client session against a raw peer that ACKs / RSTs only what it received; enumerated: NSTART 1..3 x "
-             "all CON/NON type vectors of bursts of 1..4 (thorough 5) messages x one or two bursts x bystander session, and all schedules with "
+             "all CON/NON type vectors of bursts of 1..4 (thorough 5) messages x one or two bursts x bystander session (also with the same message ids as the main session), and all schedules with "
              "<= bound deviations (drop / duplicate / reorder of any datagram, timer before delivery, peer verdict RST or silence for CON, RST for NON), plus bursts whose first Confirmable loses every copy and is given up while later ones are held; "
              "non-trivial = deviation taken or retransmission; distinct = distinct observation logs");
   vx_ev_assumption("datagram (UDP) session; the 'before the session is established' clause is exercised with DTLS in the C19 harness");
